@@ -412,7 +412,7 @@ fn run_item(tier: Tier, params: &[GenParams], i: usize, acc: &mut JsonAcc) {
 
 pub fn run(ctx: &Ctx) -> i32 {
     let params = universes(ctx.tier);
-    let (acc, crashes) = procpar::parent(ctx, params.len(), ctx.tier.pick(40.0, 570.0), &[]);
+    let (acc, crashes) = procpar::parent(ctx, params.len(), ctx.tier.pick(90.0, 1800.0), &[]);
     let mut report = Report::new();
     let c = |k: &str| acc.counters.get(k).copied().unwrap_or(0);
     report.evaluations = c("executions");
